@@ -9,6 +9,7 @@ import (
 	"fmt"
 	"math/rand"
 	"net/http"
+	"net/url"
 	"sort"
 	"strconv"
 	"strings"
@@ -94,14 +95,24 @@ func TestVerif_C20_basic(t *testing.T) {
 		"user/password strings: plain, with colon, UTF-8, Latin-1 bytes, empty, 200..900 bytes, spaces, arbitrary bytes; all four producers must agree; recovered pair by net/http Request.BasicAuth; plus arbitrary Authorization values for the server side; non-trivial = non-empty user and password")
 	r := s.Rand()
 	n := verifh.N(3000, 60000)
-	for i := 0; i < n; i++ {
-		u, ku := c20Text(r, true)
-		p, kp := c20Text(r, true)
-		if r.Intn(8) == 0 {
+	// every total length 0..300 (all residues mod 3 on both sides of any buffer size an encoder might use), then the random stream
+	sweep := 301
+	for i := 0; i < sweep+n; i++ {
+		var u, ku, p, kp string
+		if i < sweep {
+			lu := r.Intn(i + 1)
+			u, ku = verifh.RandBytes(r, lu, "abcXYZ019~._-\xe9 "), "sweep"
+			p, kp = verifh.RandBytes(r, i-lu, ""), "sweep"
+			s.Count(fmt.Sprintf("sweep-len%%3=%d", (i+1)%3))
+		} else {
+			u, ku = c20Text(r, true)
+			p, kp = c20Text(r, true)
+		}
+		if i >= sweep && r.Intn(8) == 0 {
 			u = verifh.RandBytes(r, r.Intn(20), "")
 			ku = "bytes"
 		}
-		if r.Intn(8) == 0 {
+		if i >= sweep && r.Intn(8) == 0 {
 			p = verifh.RandBytes(r, r.Intn(20), "")
 			kp = "bytes"
 		}
@@ -207,16 +218,19 @@ func c20ChalFields(c *challenge) []string {
 // c20ChalHex renders the 8 fields as a HexList in which an empty list cannot occur.
 func c20ChalHex(c *challenge) string { return verifh.HexList(c20ChalFields(c)) }
 
-// TestVerif_C20_parse: real parseChallenge vs the byte-exact model.
+// TestVerif_C20_parse: real parseChallenge vs the byte-exact model (of the repaired code; the
+// model of the code as found classes the known finding, see c20Judge).
 func TestVerif_C20_parse(t *testing.T) {
 	s := verifh.New(t, "C20", "parse",
-		"challenge texts: 50% grammatical RFC 7616 challenges (algorithms x qop forms x opaque x userhash x domain/stale/charset/unknown parameters; random order, token/quoted form, OWS incl. Unicode and ASCII control white space, BWS, quoted commas, quoted-pairs, scheme case, outer white space), 25% byte-damaged ones, 25% junk (other schemes, truncations, arbitrary bytes); answer = the 8 parsed fields or the error kind; non-trivial = parsed ok with realm and nonce, or a named error")
+		"WWW-Authenticate texts: 50% grammatical RFC 7235 challenge lists (1-3 challenges: Digest over algorithms x qop forms x opaque x userhash x domain/stale/charset/unknown/duplicate parameters, name case, random order, token/quoted form, gratuitous quoted-pairs, OWS incl. Unicode and ASCII control white space, BWS, quoted commas, empty list elements, scheme case, outer white space; Basic/Bearer/Negotiate/NTLM with and without token68, schemes with quoted commas), 25% byte-damaged ones, 25% junk (other schemes, truncations, arbitrary bytes); answer = the 8 fields of the selected challenge or the error kind; non-trivial = parsed ok with realm and nonce, or a named error")
 	r := s.Rand()
+	j := &c20Judge{s: s}
 	n := verifh.N(20000, 500000)
 	cnt := map[string]int{}
 	count := func(k string) { cnt[k]++; s.Count(k) }
 	must := []string{"grammatical", "damaged", "junk", "tag:unicode-ws", "tag:ascii-ws", "tag:outer-ws", "tag:bws", "tag:quoted-comma", "tag:quoted-pair",
-		"tag:userhash:true", "tag:alg:SHA-512-256-sess", "tag:alg:absent", "tag:alg:unknown", "tag:qop:list", "tag:qop:absent", "tag:charset:UTF-8", "tag:unknown-param"}
+		"tag:userhash:true", "tag:alg:SHA-512-256-sess", "tag:alg:absent", "tag:alg:unknown", "tag:qop:list", "tag:qop:absent", "tag:charset:UTF-8", "tag:unknown-param",
+		"tag:multi", "tag:several-digest", "tag:other-scheme", "tag:empty-elem", "tag:name-case", "tag:dup-param", "tag:scheme-case"}
 	reached := func() bool {
 		for _, m := range must {
 			if cnt[m] == 0 {
@@ -232,13 +246,13 @@ func TestVerif_C20_parse(t *testing.T) {
 		var raw, kind string
 		switch k := r.Intn(8); {
 		case k < 4:
-			c := c20GenChallenge(r, false)
+			c := c20GenHeader(r, false)
 			raw, kind = c.raw, "grammatical"
 			for tg := range c.tags {
 				count("tag:" + tg)
 			}
 		case k < 6:
-			raw, kind = c20Mutate(r, c20GenChallenge(r, false).raw), "damaged"
+			raw, kind = c20Mutate(r, c20GenHeader(r, false).raw), "damaged"
 		case k == 6:
 			raw, kind = verifh.Pick(r, c20Junk), "junk"
 		default:
@@ -264,9 +278,151 @@ func TestVerif_C20_parse(t *testing.T) {
 		if err != nil {
 			count("err:" + c20ErrName(err))
 		}
-		s.Case("c20parse "+verifh.Hex(raw), impl, true, "", err != nil || (c.realm != "" && c.nonce != ""),
-			strconv.Quote(raw)+" -> "+strings.SplitN(impl, " ", 2)[0])
+		j.add(c20Pending{line: "c20parse2 " + verifh.Hex(raw), legacy: "c20parse " + verifh.Hex(raw), impl: impl, ok: true,
+			nontrivial: err != nil || (c.realm != "" && c.nonce != ""), human: strconv.Quote(raw) + " -> " + strings.SplitN(impl, " ", 2)[0]})
 	}
+	j.flush()
+	s.Finish()
+}
+
+// TestVerif_C20_create: real createDigestAuth — every WWW-Authenticate field line of a response ->
+// the Authorization value — vs the model, with the tagged identity hash and injected entropy;
+// the independent verifier judges the answer against the challenge the SERVER meant.
+func TestVerif_C20_create(t *testing.T) {
+	s := verifh.New(t, "C20", "create",
+		"responses carrying 0-3 WWW-Authenticate field lines: 60% grammatical RFC 7235 challenge lists (as lane parse, several challenges in one line or one per line, several Digest challenges with different algorithms), 15% byte-damaged, 25% junk / no header / empty line / other schemes only; x user/password (colon, UTF-8, Latin-1, empty, long, quote/backslash/comma, control bytes) x method x request target with query x injected entropy or entropy failure; answer = the exact Authorization value or the error kind; oracle: the answer to a grammatical header is accepted by the independent RFC 7616 verifier holding the FIRST challenge the server issued that is answerable (RFC 7616 section 3.7), a header without answerable Digest challenge gives an error; non-trivial = header produced or a named error")
+	restore, _ := c20InstallIdentity()
+	defer restore()
+	r := s.Rand()
+	j := &c20Judge{s: s}
+	cnt := map[string]int{}
+	count := func(k string) { cnt[k]++; s.Count(k) }
+	must := []string{"verifier-accepted", "gen:answerable-is-not-the-first-digest", "gen:answerable-on-a-later-line", "err:bad-challenge", "err:alg", "err:qop", "err:charset", "err:rand",
+		"tag:multi", "tag:multi-line", "tag:several-digest", "tag:quoted-comma", "tag:quoted-pair", "tag:bws", "tag:qop:list", "no-header", "user:special"}
+	methods := []string{"GET", "POST", "PUT", "DELETE", "PATCH", "HEAD", "OPTIONS", "M-SEARCH"}
+	uris := []string{"/", "/dir/index.html", "/a/b?x=1&y=2", "/p?q=a%20b", "/?", "/a;b?c=d,e", "*", "/x?y=\"q\"", "/ü", "/path with space", "/a?b=c:d", "/back\\slash"}
+	n := verifh.N(12000, 250000)
+	for i := 0; i < n || !c20All(cnt, must); i++ {
+		if i > 20*n {
+			t.Fatalf("declared buckets not reached: %v", cnt)
+		}
+		var lines []string
+		var gen *c20Chal
+		switch k := r.Intn(20); {
+		case k < 12:
+			g := c20GenHeader(r, false)
+			gen, lines = &g, g.lines
+			for tg := range g.tags {
+				count("tag:" + tg)
+			}
+			if !g.broken && c20Answerable(g.is) {
+				if len(g.all) > 1 && !c20Answerable(g.all[0]) {
+					count("gen:answerable-is-not-the-first-digest")
+				}
+				if g.isLine > 0 {
+					count("gen:answerable-on-a-later-line")
+				}
+			}
+		case k < 15:
+			g := c20GenHeader(r, false)
+			lines = append([]string(nil), g.lines...)
+			x := r.Intn(len(lines))
+			lines[x] = c20Mutate(r, lines[x])
+			count("damaged")
+		case k == 15:
+			count("no-header")
+		case k == 16:
+			lines = []string{verifh.Pick(r, []string{"", " ", ",", ", ,"})}
+			if r.Intn(2) == 0 {
+				lines = append(lines, c20GenChallenge(r, false).raw)
+			}
+			count("empty-line")
+		case k == 17:
+			for m := 1 + r.Intn(2); m > 0; m-- {
+				lines = append(lines, verifh.Pick(r, c20OtherChallenges))
+			}
+			count("other-schemes-only")
+		default:
+			lines = []string{verifh.Pick(r, c20Junk)}
+			if r.Intn(3) == 0 {
+				lines = append(lines, verifh.Pick(r, c20Junk))
+			}
+			count("junk")
+		}
+		user, ku := c20Text(r, true)
+		if r.Intn(20) == 0 {
+			user, ku = verifh.RandBytes(r, 1+r.Intn(6), "ab\x00\r\n\x7f\x1f\t"), "control"
+		}
+		pass, _ := c20Text(r, true)
+		method := verifh.Pick(r, methods)
+		uri := verifh.Pick(r, uris)
+		rnd := []byte(verifh.RandBytes(r, 16, ""))
+		fail := r.Intn(25) == 0
+		rndArg := hex.EncodeToString(rnd)
+		if fail {
+			rndArg = "x"
+		}
+		count("user:" + ku)
+		h := http.Header{}
+		for _, v := range lines {
+			h.Add("WWW-Authenticate", v)
+		}
+		rq := &http.Request{Method: method, URL: &url.URL{Opaque: uri}}
+		target := rq.URL.RequestURI()
+		args := fmt.Sprintf("%s %s %s %s %s %s", verifh.HexList(lines), verifh.Hex(user), verifh.Hex(pass), verifh.Hex(method), verifh.Hex(target), rndArg)
+		human := fmt.Sprintf("www=%q user=%q pass=%q %s %s", lines, user, pass, method, target)
+		var out string
+		var err error
+		undo := c20InjectRand(rnd, fail)
+		p, pan := verifh.Safely(func() { out, err = createDigestAuth(&http.Response{Header: h, Request: rq}, user, pass) })
+		undo()
+		if pan {
+			s.Crash("c20create2 "+args, human, p, "")
+			continue
+		}
+		impl := "ok " + verifh.Hex(out)
+		if err != nil {
+			impl = "err " + c20ErrName(err)
+			count("err:" + c20ErrName(err))
+		} else {
+			count("ok")
+		}
+		ok := true
+		if gen != nil && !fail {
+			switch {
+			case gen.broken || !c20Answerable(gen.is):
+				// nothing the client may answer: an error, not a header
+				if err == nil {
+					ok = false
+					human += " | answered a header list without answerable Digest challenge: " + strconv.Quote(out)
+				}
+			case err != nil && gen.loose:
+				count("loose-white-space:refused")
+			case err != nil:
+				ok = false
+				human += " | an answerable challenge was refused: " + err.Error()
+			case !c20HeaderSafe(out):
+				count("not-a-field-value") // judged by the model only; the transport refuses it (lane handle)
+			default:
+				x := c20Ctx{is: gen.is, method: method, uri: target, user: user, pass: pass}
+				if good, why := c20Verify(c20IdH, x, out); good {
+					count("verifier-accepted")
+					if len(gen.all) > 1 && gen.is.nonce != gen.all[0].nonce {
+						count("answered:second-or-later-challenge")
+					}
+					if gen.isLine > 0 {
+						count("answered:later-line")
+					}
+				} else {
+					ok = false
+					human += " | verifier: " + why + " | header=" + strconv.Quote(out)
+				}
+			}
+		}
+		j.add(c20Pending{line: "c20create2 " + args, legacy: "c20create " + args, impl: impl, ok: ok,
+			nontrivial: err == nil || c20ErrName(err) != "other", human: human})
+	}
+	j.flush()
 	s.Finish()
 }
 
@@ -275,10 +431,11 @@ func TestVerif_C20_parse(t *testing.T) {
 // crypto/rand.Reader by an injected source, so that the whole header is predictable.
 func TestVerif_C20_auth(t *testing.T) {
 	s := verifh.New(t, "C20", "auth",
-		"challenge structs: 60% real parseChallenge output of grammatical challenges, 40% direct field tuples (qop lists with/without 'auth', unknown/empty/-sess algorithms, userhash true/false/TRUE, empty/odd realm, nonce, opaque) x user/password (colon, UTF-8, Latin-1, empty, long, quote/backslash/comma) x method x URI with query x nc in {0,1,9,255,2^28,2^32} x 16 injected entropy bytes or entropy failure; answer = the exact Authorization value or the error kind; oracle on parser-derived cases: the independent verifier accepts; non-trivial = header produced or a named error")
+		"challenge structs: 60% real parseChallenge output of grammatical challenges, 40% direct field tuples (qop lists with/without 'auth', unknown/empty/-sess algorithms, userhash true/false/TRUE, empty/odd realm, nonce, opaque) x user/password (colon, UTF-8, Latin-1, empty, long, quote/backslash/comma) x method x URI with query x nc in {0,1,9,255,2^28,2^32} x 16 injected entropy bytes or entropy failure; answer = the exact Authorization value or the error kind (model of the repaired code; the model of the code as found classes the known finding); the independent verifier judges the whole pipeline in lane create; non-trivial = header produced or a named error")
 	restore, row13 := c20InstallIdentity()
 	defer restore()
 	r := s.Rand()
+	j := &c20Judge{s: s}
 	methods := []string{"GET", "POST", "PUT", "DELETE", "PATCH", "HEAD", "OPTIONS", "", "get", "M-SEARCH"}
 	uris := []string{"/", "/dir/index.html", "/a/b?x=1&y=2", "/p?q=a%20b", "/?", "/a;b?c=d,e", "*", "", "/x?y=\"q\"", "/ü", "/path with space", "/a?b=c:d"}
 	n := verifh.N(15000, 300000)
@@ -327,7 +484,8 @@ func TestVerif_C20_auth(t *testing.T) {
 		if fail {
 			rndArg = "x"
 		}
-		line := fmt.Sprintf("c20auth %s %s %s %s %s %d %s", c20ChalHex(ch), verifh.Hex(user), verifh.Hex(pass), verifh.Hex(method), verifh.Hex(uri), nc, rndArg)
+		args := fmt.Sprintf("%s %s %s %s %s %d %s", c20ChalHex(ch), verifh.Hex(user), verifh.Hex(pass), verifh.Hex(method), verifh.Hex(uri), nc, rndArg)
+		line := "c20auth2 " + args
 		human := fmt.Sprintf("chal=%+v user=%q pass=%q %s %s nc=%d", *ch, user, pass, method, uri, nc)
 		var out string
 		var err error
@@ -388,28 +546,12 @@ func TestVerif_C20_auth(t *testing.T) {
 			impl = "ok " + verifh.Hex(norm)
 			out = norm
 		}
-		// ---- oracle on parser-derived challenges: the independent verifier accepts
-		ok, class := true, ""
-		if gen != nil && err == nil && !fail && nc == 0 {
-			x := c20Ctx{is: gen.is, method: method, uri: uri, user: user, pass: pass}
-			good, why := c20Verify(c20IdH, x, out)
-			if !good {
-				if c20QuotedCorner(gen, user, uri) {
-					s.Count("known:quoted-string-handling")
-					if known["qs"] < 3 {
-						s.Observe("quoted-string "+line, false, "c20-quoted-string-handling", false, human+" raw="+strconv.Quote(gen.raw), "verifier: "+why+"; header "+strconv.Quote(out))
-					}
-					known["qs"]++
-				} else {
-					ok = false
-					human += " | verifier: " + why + " | raw=" + strconv.Quote(gen.raw) + " | header=" + strconv.Quote(out)
-				}
-			} else {
-				s.Count("verifier-accepted")
-			}
-		}
-		s.Case(line, impl, ok, class, err == nil || c20ErrName(err) != "other", human)
+		// (the independent verifier judges the whole pipeline header lines -> Authorization in lane create)
+		_ = gen
+		j.add(c20Pending{line: "c20auth2 " + args, legacy: "c20auth " + args, impl: impl, ok: true,
+			nontrivial: err == nil || c20ErrName(err) != "other", human: human})
 	}
+	j.flush()
 	_ = row13
 	s.Finish()
 }
